@@ -410,7 +410,12 @@ func RefApplyUpdate(observed, desired map[string]any) (result map[string]any, ok
 	d := CopyMap(desired)
 	if dm, _ := d["metadata"].(map[string]any); dm != nil {
 		if ann, _ := dm["annotations"].(map[string]any); ann != nil {
-			delete(ann, LastAppliedAnnotation)
+			if _, had := ann[LastAppliedAnnotation]; had {
+				delete(ann, LastAppliedAnnotation)
+				if len(ann) == 0 {
+					delete(dm, "annotations")
+				}
+			}
 		}
 	}
 	r := RefMerge(CopyMap(observed), last, CopyMap(d))
